@@ -243,6 +243,9 @@ func (g *gen) expr(k kind, depth int) ast.IsNode {
 		case 2:
 			return ast.NodeTypeNot{UnaryNode: ast.UnaryNode{Arg: sub(kBool)}}
 		case 3:
+			if g.r.Intn(4) == 0 {
+				return g.permutedSets()
+			}
 			kk := anyK()
 			return ast.NodeTypeEquals{BinaryNode: bin(sub(kk), sub(kk))}
 		case 4:
@@ -347,6 +350,48 @@ func (g *gen) expr(k kind, depth int) ast.IsNode {
 		return ext("ip", g.litArg(ipLits, d))
 	}
 	return g.leaf(k)
+}
+
+// permutedSets relates two sets (values or literals) built from the same pool of values
+// that collide in the implementation's hash (n, true/false, decimal / duration / datetime
+// with payload n), inserted in different orders and with duplicates.
+func (g *gen) permutedSets() ast.IsNode {
+	n := int64(g.r.Intn(3))
+	pool := []types.Value{types.Long(n), types.Boolean(n == 1), cwf.DecimalFromRaw(n), types.NewDurationFromMillis(n),
+		types.NewDatetimeFromMillis(n), types.Long(n + 1), types.String("a")}
+	m := 2 + g.r.Intn(4)
+	a := make([]types.Value, m)
+	for i := range a {
+		a[i] = pick(g, pool)
+	}
+	b := append([]types.Value(nil), a...)
+	g.r.Shuffle(len(b), func(i, j int) { b[i], b[j] = b[j], b[i] })
+	if g.r.Intn(3) == 0 {
+		b = append(b, pick(g, pool))
+	}
+	mk := func(vs []types.Value) ast.IsNode {
+		switch g.r.Intn(3) {
+		case 0:
+			return val(types.NewSet(vs...))
+		case 1:
+			els := make([]ast.IsNode, len(vs))
+			for i, v := range vs {
+				els[i] = val(v)
+			}
+			return ast.NodeTypeSet{Elements: els}
+		}
+		return val(types.NewRecord(types.RecordMap{"s": types.NewSet(vs...)}))
+	}
+	l, r := mk(a), mk(b)
+	switch g.r.Intn(5) {
+	case 0:
+		return ast.NodeTypeNotEquals{BinaryNode: bin(l, r)}
+	case 1:
+		return ast.NodeTypeContainsAll{BinaryNode: bin(l, r)}
+	case 2:
+		return ast.NodeTypeContains{BinaryNode: bin(ast.NodeTypeSet{Elements: []ast.IsNode{l}}, r)}
+	}
+	return ast.NodeTypeEquals{BinaryNode: bin(l, r)}
 }
 
 func (g *gen) litArg(lits []string, depth int) ast.IsNode {
